@@ -125,6 +125,84 @@ def to_lib(s):
     raise ValueError('PDU type %r has no public class' % t)
 
 
+def to_lib_incremental(s):
+    """The same PDU built step by step through the public attributes: containers are created empty (or with a
+    placeholder) and filled afterwards, text fields are first given another value and then the final one.  A PDU
+    "that can be built from the public classes" can be built this way too."""
+    t = s['t']
+    if t in (1, 2):
+        cls = pdu.AAssociateRqPDU if t == 1 else pdu.AAssociateAcPDU
+        x = cls(called_ae_title='X', calling_ae_title='Y', variable_items=[],
+                protocol_version=s.get('ver', 1), reserved1=s.get('r1', 0), reserved2=s.get('r2', 0),
+                reserved3=struct.unpack('>8I', B(s.get('r3', b'\0' * 32))))
+        x.called_ae_title = title(s['called'])
+        x.calling_ae_title = title(s['calling'])
+        for i in s['items']:
+            if i['t'] == 0x50:
+                it = pdu.UserInformationItem([], reserved=i.get('r', 0))
+                x.variable_items.append(it)
+                for sub in i['sub']:
+                    it.user_data.append(sub_to_lib(sub))
+            elif i['t'] == 0x20:
+                full = item_to_lib(i)
+                ts = full.ts_sub_items
+                full.ts_sub_items = []
+                x.variable_items.append(full)
+                for k in ts:
+                    full.ts_sub_items.append(k)
+            elif i['t'] == 0x10:
+                it = pdu.ApplicationContextItem('1.2', reserved=i.get('r', 0))
+                x.variable_items.append(it)
+                it.context_name = txt(i['name'])
+            else:
+                x.variable_items.append(item_to_lib(i))
+        return x
+    if t == 4:
+        x = pdu.PDataTfPDU([], reserved=s.get('r1', 0))
+        for v in s['pdvs']:
+            pv = pdu.PresentationDataValueItem(v['ctx'], b'')
+            x.data_value_items.append(pv)
+            pv.data_value = B(v['val'])
+        return x
+    if t == 3:
+        x = pdu.AAssociateRjPDU(0, 0, 0, reserved1=s.get('r1', 0), reserved2=s.get('r2', 0))
+        x.result, x.source, x.reason_diag = s['result'], s['source'], s['reason']
+        return x
+    if t == 7:
+        x = pdu.AAbortPDU(0, 0, reserved1=s.get('r1', 0), reserved2=s.get('r2', 0), reserved3=s.get('r3', 0))
+        x.source, x.reason_diag = s['source'], s['reason']
+        return x
+    return to_lib(s)
+
+
+def to_lib_extended(s, ref_encode):
+    """A received PDU that is extended and sent on (what an acceptor does with the user information of a request):
+    the structure without its last user-information sub-item (or last presentation context / last PDV) is encoded
+    by the reference, decoded by the library, completed through the public attributes.  None if s has nothing to drop."""
+    import copy
+    t = s['t']
+    short = copy.deepcopy(s)
+    if t in (1, 2):
+        ui = [i for i in short['items'] if i['t'] == 0x50 and i['sub']]
+        if not ui or short['items'][-1]['t'] != 0x50:
+            return None
+        last = ui[-1]['sub'].pop()
+        if any(x['t'] in (0x57,) or x['t'] not in (0x51, 0x52, 0x53, 0x54, 0x55, 0x56, 0x58, 0x59) for x in ui[-1]['sub']):
+            pass
+        y = LIB_CLASS[t].decode(ref_encode(short))
+        items = [i for i in y.variable_items if isinstance(i, pdu.UserInformationItem)]
+        if not items:
+            return None
+        items[-1].user_data.append(sub_to_lib(last))
+        return y
+    if t == 4 and len(s['pdvs']) > 1:
+        last = short['pdvs'].pop()
+        y = pdu.PDataTfPDU.decode(ref_encode(short))
+        y.data_value_items.append(pdu.PresentationDataValueItem(last['ctx'], B(last['val'])))
+        return y
+    return None
+
+
 LIB_CLASS = {1: pdu.AAssociateRqPDU, 2: pdu.AAssociateAcPDU, 3: pdu.AAssociateRjPDU, 4: pdu.PDataTfPDU,
              5: pdu.AReleaseRqPDU, 6: pdu.AReleaseRpPDU, 7: pdu.AAbortPDU}
 
@@ -243,6 +321,16 @@ def rand_text(rng, lo, hi, alphabet=b'0123456789.'):
     return bytes(rng.choice(alphabet) for _ in range(n))
 
 
+def rand_utf8(rng, hi, ascii_alphabet):
+    """User names / passwords / Kerberos tickets are byte strings on the wire; as text they may hold characters of 1..4
+    UTF-8 bytes each."""
+    if rng.random() < 0.6:
+        return rand_text(rng, 0, hi, ascii_alphabet)
+    chars = 'a0\u00e9\u00fc\u00df\u0416\u4e2d\U0001f600'
+    n = rng.choice([1, 2, hi // 4])
+    return ''.join(rng.choice(chars) for _ in range(n)).encode('utf8')
+
+
 def rand_int(rng, bits):
     top = (1 << bits) - 1
     return rng.choice([0, 1, top, top // 2, top // 2 + 1, rng.randint(0, top)])
@@ -265,7 +353,7 @@ def rand_sub(rng):
         return {'t': t, 'r': r, 'uid': rand_text(rng, 0, 64), 'info': bytes(rng.randrange(256) for _ in range(rng.choice([0, 1, 2, 3, 9, 40])))}
     if t == 0x58:
         return {'t': t, 'r': r, 'type': rng.choice([1, 2, 3, 4, 5]), 'resp': rng.choice([0, 1]),
-                'prim': rand_text(rng, 0, 30, b'userNAME09'), 'sec': rand_text(rng, 0, 30, b'pass!word')}
+                'prim': rand_utf8(rng, 30, b'userNAME09'), 'sec': rand_utf8(rng, 30, b'pass!word')}
     if t == 0x59:
         return {'t': t, 'r': r, 'rsp': rand_text(rng, 0, 40, b'tokenTOKEN01')}
     return {'t': t, 'r': r, 'data': bytes(rng.randrange(256) for _ in range(rng.choice([0, 1, 4, 33])))}
